@@ -373,5 +373,9 @@ class AdjointSDE(base_sde.BaseSDE):
                 create_graph=requires_grad
             )
             vjp_y_and_params = misc.seq_sub(prod_partials_adj_y_and_params, mixed_partials_adj_y_and_params)
+            if not requires_grad:
+                # See corresponding note in _f_uncorrected. (If `g` returns `y` itself then the vjp above is its
+                # `grad_outputs`, which was computed with grad enabled.)
+                vg_dg_vjp = vg_dg_vjp.detach()
             return self._g_prod(g_prod, y, adj_y, requires_grad), misc.flatten((vg_dg_vjp, 
                                                                                 *vjp_y_and_params)).unsqueeze(0)
